@@ -5,6 +5,7 @@
 #include <string.h>
 typedef void (*victim_fn)(size_t, size_t, int);
 extern victim_fn g_victims[8][3];
+extern victim_fn g_big_victims[8];
 extern void run_deep(victim_fn f, size_t n, size_t off, int val);
 extern void probe(int val, int elem_width, long *surviving, long *outside);
 static const char *FN[8] = {"memset_s", "memzero_s", "memset16_s", "memset32_s", "memzero16_s", "memzero32_s", "strzero_s", "CONTROL-plain-memset"};
@@ -34,6 +35,21 @@ int main(int argc, char **argv) {
         }
         printf("{\"t\":\"erase\",\"fn\":\"%s\",\"storage\":\"%s\",\"cases\":%ld,\"bad_cases\":%ld,\"bytes\":%ld,\"surviving\":%ld,\"outside_changed\":%ld,\"first_n\":%zu,\"first_off\":%zu,\"first_val\":%d,\"first_surviving\":%ld}\n",
                FN[k], ST[st], cases, bad_cases, bytes_total, surv_total, outside_total, wn, woff, wval, wsurv);
+    }
+    /* large requests: element counts on both sides of 65536 and well above it (strzero_s is limited to RSIZE_MAX_STR) */
+    for (int k = 0; k < 8; k++) { if (!g_big_victims[k]) continue;
+        static const size_t BN[] = {65535, 65536, 65537, 131072, 200000};
+        int ew = (k == 2 || k == 4) ? 2 : (k == 3 || k == 5) ? 4 : 1; long cases = 0, bad_cases = 0, surv_total = 0, bytes_total = 0, outside_total = 0; size_t wn = 0; long wsurv = 0;
+        for (int bi = 0; bi < 5; bi++) for (int vi = 0; vi < 2; vi++) {
+            size_t n = BN[bi] * (size_t)ew; int val = vi ? 0x5A : 0; if ((k == 1 || k == 4 || k == 5) && val) continue; if (n > (1u << 20)) continue;
+            int fill = ew == 1 ? val : ew == 2 ? (val | val << 8) : (int)((unsigned)val * 0x01010101u);
+            run_deep(g_big_victims[k], n, 0, fill);
+            long s_, o_; probe(fill, ew, &s_, &o_);
+            cases++; bytes_total += (long)n; surv_total += s_; outside_total += o_;
+            if (s_ || o_) { if (!bad_cases) { wn = n; wsurv = s_; } bad_cases++; }
+        }
+        printf("{\"t\":\"erase\",\"fn\":\"%s\",\"storage\":\"static-large\",\"cases\":%ld,\"bad_cases\":%ld,\"bytes\":%ld,\"surviving\":%ld,\"outside_changed\":%ld,\"first_n\":%zu,\"first_off\":0,\"first_val\":0,\"first_surviving\":%ld}\n",
+               FN[k], cases, bad_cases, bytes_total, surv_total, outside_total, wn, wsurv);
     }
     printf("{\"t\":\"end\"}\n");
     return 0;
